@@ -17,7 +17,7 @@ Definition Ltail : list stmt := [SEndLoop pull_body; SUnlock; SReturn].
    about the shared state is recorded only at points where it holds the mutex *)
 Inductive tok : list N -> bool -> bool -> thread -> Prop :=
 | T_idle qq cl sc rv0 rok0 o : tok qq cl false (mkT sc None [] Run rv0 rok0 o)
-| T_dead qq cl sc cu k rv0 rok0 o : tok qq cl false (mkT sc cu k Panicked rv0 rok0 o)
+| T_dead qq cl sc v o : tok qq cl false (mkT sc (Some (OPush v)) [SPushBack; SSignal; SUnlock; SReturnTrue] Panicked None false o)
 (* Push *)
 | T_P0 qq cl sc v o : tok qq cl false (mkT sc (Some (OPush v)) [SLock; SIfClosed [SUnlock; SPanic] []; SPushBack; SSignal; SUnlock; SReturnTrue] Run None false o)
 | T_P1 qq cl sc v o : tok qq cl true (mkT sc (Some (OPush v)) [SIfClosed [SUnlock; SPanic] []; SPushBack; SSignal; SUnlock; SReturnTrue] Run None false o)
@@ -81,6 +81,15 @@ Definition rep (t : thread) : nat :=
   cnt is_closure (out t) +
   match cur t, cont t, rv t, st t with Some OPull, [SReturn], None, Run => 1 | _, _, _, _ => 0 end.
 Definition bad (t : thread) : nat := cnt bad_res (out t).
+(* multiplicity of a value among the values handed to callers: returned by a finished Pull, or already
+   taken out of the queue by a Pull that has not returned yet *)
+Fixpoint cN (a : N) (l : list N) : nat :=
+  match l with [] => 0 | x :: r => (if N.eqb a x then 1 else 0) + cN a r end.
+Lemma cN_app a l1 l2 : cN a (l1 ++ l2) = cN a l1 + cN a l2.
+Proof. induction l1; simpl; lia. Qed.
+Definition pending (t : thread) : list N :=
+  match cur t, rv t with Some OPull, Some v => [v] | _, _ => [] end.
+Definition ga (a : N) (t : thread) : nat := cN a (gots_of t) + cN a (pending t).
 
 Record Inv (s : state) : Prop := mkInv {
   I_race : race s = false;
@@ -94,7 +103,8 @@ Record Inv (s : state) : Prop := mkInv {
   I_wake : sumf wc (thr s) > 0 -> Nat.b2n (closed s) <= sumf bc (thr s) /\ length (q s) <= sumf cr (thr s);
   (* closure is reported only when closed and empty - and that is stable *)
   I_rep : sumf rep (thr s) > 0 -> Nat.b2n (closed s) = 1 /\ length (q s) = 0;
-  I_res : sumf bad (thr s) = 0 }.
+  I_res : sumf bad (thr s) = 0;
+  I_once : forall a, sumf (ga a) (thr s) = cN a (delivered s) }.
 
 Lemma hold_true ow i : hold ow i = true -> ow = Some i.
 Proof. destruct ow as [k|]; simpl; [|discriminate]. intros H. apply Nat.eqb_eq in H. congruence. Qed.
@@ -137,6 +147,8 @@ Lemma bc_wake t : bc (wake t) = bc t.
 Proof. unfold wake, isW, bc. destruct t as [sc cu k [] rv0 rok0 o]; reflexivity. Qed.
 Lemma rep_wake t : rep (wake t) = rep t.
 Proof. unfold wake, isW, rep. destruct t as [sc cu k [] rv0 rok0 o]; reflexivity. Qed.
+Lemma ga_wake a t : ga a (wake t) = ga a t.
+Proof. unfold wake, isW, ga. destruct t as [sc cu k [] rv0 rok0 o]; reflexivity. Qed.
 Lemma bad_wake t : bad (wake t) = bad t.
 Proof. unfold wake, isW, bad. destruct t as [sc cu k [] rv0 rok0 o]; reflexivity. Qed.
 
@@ -167,7 +179,7 @@ Lemma sumf_upd' f l i t t' x y : nth_error l i = Some t -> f t = x -> f t' = y -
   sumf f (upd l i t') + x = sumf f l + y.
 Proof. intros H <- <-. apply sumf_upd. exact H. Qed.
 
-Ltac eval_f := unfold rep, bad; cbn; rewrite ?cnt_app; cbn; reflexivity.
+Ltac eval_f := unfold rep, bad, ga, gots_of, pending; cbn; rewrite ?cnt_app, ?flat_map_app, ?cN_app; cbn; reflexivity.
 Ltac sum1 Hn f T' :=
   let H := fresh "Hs" in
   eassert (H : _) by (eapply (sumf_upd' f _ _ _ T'); [exact Hn | eval_f | eval_f]).
@@ -178,12 +190,18 @@ Ltac solve_sum Hn :=
   | |- context [upd _ _ ?T'] => sums Hn T'
   end;
   try match goal with H : existsb isW _ = false |- _ => apply existsb_wc in H end;
-  cbn [Nat.b2n length] in *; lia.
+  rewrite ?app_length; cbn [Nat.b2n length] in *; lia.
+Ltac solve_once Hn Ionce :=
+  let a := fresh "a" in intros a; specialize (Ionce a);
+  match goal with
+  | |- context [upd _ _ ?T'] => sum1 Hn (ga a) T'
+  end;
+  rewrite ?cN_app; cbn [cN]; lia.
 
 Lemma step_inv s s' : Inv s -> step expected_ll s s' -> Inv s'.
 Proof.
-  intros [Ira Ifa Itok Iown Iwake Irep Ires] [i [c E]].
-  destruct s as [qq cl ow cp th pu de ra fa]. cbn [race fatal q closed owner thr] in *.
+  intros [Ira Ifa Itok Iown Iwake Irep Ires Ionce] [i [c E]].
+  destruct s as [qq cl ow cp th pu de ra fa]. cbn [race fatal q closed owner thr delivered] in *.
   subst ra fa.
   unfold exec in E. cbn [thr] in E.
   destruct (nth_error th i) as [t|] eqn:Hn; [|discriminate].
@@ -202,6 +220,187 @@ Proof.
   try match goal with |- context [match ?x with [] => _ | _ :: _ => _ end] => destruct x end;
   try match goal with |- context [if ?b then _ else _] => destruct b end;
   cbn [set_st set_cont set_res ret result script cur cont st rv rok out prog_of expected_ll p_push p_pull p_close expected_push_prog expected_pull_prog expected_close_prog];
-  (constructor; cbn [race fatal q closed owner thr];
+  (constructor; cbn [race fatal q closed owner thr delivered];
    [ reflexivity | reflexivity | try solve [solve_tok Itok] | try solve [solve_own Iown Hn]
-   | try solve [solve_sum Hn] | try solve [solve_sum Hn] | try solve [solve_sum Hn] ]).
+   | try solve [solve_sum Hn] | try solve [solve_sum Hn] | try solve [solve_sum Hn] | try solve [solve_once Hn Ionce] ]).
+  all: try match goal with
+  | Hc : nth_error ?th ?c = Some ?w, Hw : isW ?w = true, Hn : nth_error ?th ?i = Some _ |- _ =>
+      let Hk := fresh "Hk" in
+      pose proof (Itok c w Hc) as Hk; inversion Hk; subst; cbn in Hw; try discriminate Hw;
+      assert (Hic : c <> i) by (intros ->; rewrite Hn in Hc; discriminate Hc);
+      assert (Hn2 : forall w', nth_error (upd th c w') i = Some _) by (intros w'; rewrite nth_upd_ne by exact Hic; exact Hn)
+  end.
+  (* Signal with a parked thread: two threads change *)
+  all: try solve [eapply TOK_upd;
+         [eapply TOK_upd; [exact Itok | rewrite (hold_other _ _ Hic); constructor | left; repeat split; reflexivity]
+         | rewrite hold_self; constructor | left; repeat split; reflexivity]].
+  all: try solve [
+    match goal with
+    | Hc : nth_error ?th ?c = Some _ |- context [upd (upd ?th ?c ?W') _ ?T'] =>
+        let go f := (eassert (_) by (eapply (sumf_upd' f _ _ _ W'); [exact Hc | eval_f | eval_f]);
+                     eassert (_) by (eapply (sumf_upd' f _ _ _ T'); [apply (Hn2 W') | eval_f | eval_f])) in
+        go wc; go bc; go cr; go rep; go bad
+    end; cbn [Nat.b2n length] in *; lia].
+  all: try solve [
+    intros a; specialize (Ionce a);
+    match goal with
+    | Hc : nth_error ?th ?c = Some _ |- context [upd (upd ?th ?c ?W') _ ?T'] =>
+        eassert (_) by (eapply (sumf_upd' (ga a) _ _ _ W'); [exact Hc | eval_f | eval_f]);
+        eassert (_) by (eapply (sumf_upd' (ga a) _ _ _ T'); [apply (Hn2 W') | eval_f | eval_f])
+    end; lia].
+  (* Broadcast *)
+  all: try solve [apply TOK_wake_all; solve_tok Itok].
+  all: try solve [intros HW; rewrite sumf_wake_wc in HW; lia].
+  all: try solve [rewrite (sumf_wake_same rep _ rep_wake); solve_sum Hn].
+  all: try solve [rewrite (sumf_wake_same bad _ bad_wake); solve_sum Hn].
+  all: try solve [intros a; rewrite (sumf_wake_same (ga a) _ (ga_wake a)); revert a; solve_once Hn Ionce].
+Qed.
+
+Lemma sumf_map_zero {A} f (g : A -> thread) l : (forall a, f (g a) = 0) -> sumf f (map g l) = 0.
+Proof. intros H. induction l as [|a l IH]; simpl; auto. rewrite H, IH. reflexivity. Qed.
+
+Lemma init_inv n scripts : Inv (init n scripts).
+Proof.
+  unfold init. constructor; cbn [race fatal q closed owner thr delivered]; auto.
+  - intros j t Hj. rewrite nth_error_map in Hj. destruct (nth_error scripts j); [|discriminate].
+    inversion Hj; subst. cbn. constructor.
+  - discriminate.
+  - rewrite sumf_map_zero by reflexivity. lia.
+  - rewrite sumf_map_zero by reflexivity. lia.
+  - apply sumf_map_zero. reflexivity.
+  - intros a. apply sumf_map_zero. reflexivity.
+Qed.
+
+Theorem reach_inv n scripts s : reach expected_ll (init n scripts) s -> Inv s.
+Proof. induction 1 as [|s s' R IH Hs]; [apply init_inv | eapply step_inv; eauto]. Qed.
+
+(* ------------------------------------------------------------------ states in which nobody can move *)
+Lemma existsb_isW_nth th : existsb isW th = true -> exists c w, nth_error th c = Some w /\ isW w = true.
+Proof.
+  intros H. apply existsb_exists in H. destruct H as (w & Hin & Hw).
+  apply In_nth_error in Hin. destruct Hin as [c Hc]. eauto.
+Qed.
+
+Lemma stuck_owner s : Inv s -> stuck expected_ll s -> owner s = None.
+Proof.
+  intros [Ira Ifa Itok Iown Iwake Irep Ires Ionce] Hst.
+  destruct s as [qq cl ow cp th pu de ra fa]. cbn [race fatal q closed owner thr delivered] in *.
+  destruct ow as [j|]; [exfalso|reflexivity].
+  pose proof (Iown j eq_refl) as Hl.
+  destruct (nth_error th j) as [t|] eqn:Hn; [|apply nth_error_None in Hn; lia].
+  pose proof (Itok j t Hn) as Ht. rewrite hold_self in Ht.
+  assert (Hc : exists c, existsb isW th = true -> exists w, nth_error th c = Some w /\ isW w = true).
+  { destruct (existsb isW th) eqn:E.
+    - destruct (existsb_isW_nth th E) as (c & w & H1 & H2). exists c. eauto.
+    - exists 0. discriminate. }
+  destruct Hc as [c Hc].
+  pose proof (Hst j c) as E. unfold exec in E. cbn [thr] in E. rewrite Hn in E.
+  inversion Ht; subst;
+  cbn [st cont cur script rv rok out set_st set_cont set_res ret result prog_of expected_ll p_push p_pull p_close
+       holds owner closed q cap pushed delivered race fatal thr app break_out pull_body Ltail negb orb] in E;
+  rewrite ?Nat.eqb_refl in E; cbn [negb orb] in E;
+  split_E E;
+  destruct (Hc eq_refl) as (w & H1 & H2); congruence.
+Qed.
+
+Lemma stuck_thread s i t : Inv s -> stuck expected_ll s -> nth_error (thr s) i = Some t ->
+  bc t = 0 /\ cr t = 0 /\ (finished t = true \/ isP t = true \/ isW t = true).
+Proof.
+  intros I Hst Hn. pose proof (stuck_owner s I Hst) as Ho.
+  destruct I as [Ira Ifa Itok Iown Iwake Irep Ires Ionce].
+  destruct s as [qq cl ow cp th pu de ra fa]. cbn [race fatal q closed owner thr delivered] in *. subst ow.
+  pose proof (Itok i t Hn) as Ht. cbn [hold] in Ht.
+  pose proof (Hst i 0) as E. unfold exec in E. cbn [thr] in E. rewrite Hn in E.
+  inversion Ht; subst;
+  cbn [st cont cur script rv rok out set_st set_cont set_res ret result prog_of expected_ll p_push p_pull p_close
+       holds owner closed q cap pushed delivered race fatal thr app break_out pull_body Ltail negb orb] in E;
+  split_E E; cbn; auto.
+Qed.
+
+(* ------------------------------------------------------------------ the statements of the property *)
+Lemma wc_existsb l : existsb isW l = true -> sumf wc l > 0.
+Proof.
+  induction l as [|t l IH]; cbn [existsb sumf]; [discriminate|]. intros H.
+  apply orb_true_iff in H. destruct H as [H|H]; [unfold wc; rewrite H; lia|]. specialize (IH H). lia.
+Qed.
+Lemma b2n_1 b : Nat.b2n b = 1 -> b = true. Proof. destruct b; [reflexivity|discriminate]. Qed.
+Lemma cnt_in f r o : In r o -> f r > 0 -> cnt f o > 0.
+Proof. induction o as [|x o IH]; simpl; [tauto|]. intros [->|H] Hf; [lia|]. specialize (IH H Hf). lia. Qed.
+Lemma cnt_zero f r o : cnt f o = 0 -> In r o -> f r = 0.
+Proof. induction o as [|x o IH]; simpl; [tauto|]. intros H [->|Hi]; [lia|]. apply IH; [lia|exact Hi]. Qed.
+
+Section LL.
+Variables (n : nat) (scripts : list (list op)) (s : state).
+Hypothesis R : reach expected_ll (init n scripts) s.
+
+(* every access to the list and to `closed` is made holding the mutex; no unlock of a free mutex, no
+   Remove(nil), no Wait without the mutex *)
+Theorem ll_protected : race s = false /\ fatal s = false.
+Proof. destruct (reach_inv _ _ _ R); auto. Qed.
+
+Theorem ll_fifo : delivered s ++ q s = pushed s.
+Proof. eapply reach_fifo; [|exact R]. reflexivity. Qed.
+
+(* no lost wake-up *)
+Theorem ll_no_lost_wakeup : existsb isW (thr s) = true ->
+  Nat.b2n (closed s) <= sumf bc (thr s) /\ length (q s) <= sumf cr (thr s).
+Proof. intros H. apply (I_wake s (reach_inv _ _ _ R)). apply wc_existsb. exact H. Qed.
+
+(* no deadlock: when nobody can move, the mutex is free and every thread has finished its script, or is a
+   producer that panicked in Push (after Close), or is a consumer parked on an EMPTY and OPEN queue *)
+Theorem ll_no_deadlock : stuck expected_ll s ->
+  owner s = None /\
+  (forall i t, nth_error (thr s) i = Some t ->
+     finished t = true \/ (isP t = true /\ exists v, cur t = Some (OPush v)) \/ (isW t = true /\ cur t = Some OPull)) /\
+  (existsb isW (thr s) = true -> q s = [] /\ closed s = false).
+Proof.
+  intros Hst. pose proof (reach_inv _ _ _ R) as I. split; [apply stuck_owner; auto|]. split.
+  - intros i t Hn. destruct (stuck_thread s i t I Hst Hn) as (_ & _ & H).
+    pose proof (I_tok s I i t Hn) as Ht.
+    destruct H as [H|[H|H]]; auto; right; [left|right]; split; auto;
+      inversion Ht; subst; try discriminate H; cbn; eauto.
+  - intros HW. destruct (I_wake s I (wc_existsb _ HW)) as [Hb Hc].
+    assert (Z1 : sumf bc (thr s) = 0) by (apply sumf_zero; intros t Hin; apply In_nth_error in Hin; destruct Hin as [i Hi]; apply (stuck_thread s i t I Hst Hi)).
+    assert (Z2 : sumf cr (thr s) = 0) by (apply sumf_zero; intros t Hin; apply In_nth_error in Hin; destruct Hin as [i Hi]; apply (stuck_thread s i t I Hst Hi)).
+    split; [destruct (q s); [reflexivity|simpl in Hc; lia] | destruct (closed s); [simpl in Hb; lia|reflexivity]].
+Qed.
+
+(* after Close nobody waits forever: a state in which nobody can move and the queue is closed has no parked thread *)
+Corollary ll_closed_terminates : stuck expected_ll s -> closed s = true ->
+  forall i t, nth_error (thr s) i = Some t -> finished t = true \/ isP t = true.
+Proof.
+  intros Hst Hc i t Hn. destruct (ll_no_deadlock Hst) as (_ & H1 & H2).
+  destruct (H1 i t Hn) as [H|[[H _]|[H _]]]; auto.
+  assert (HW : existsb isW (thr s) = true) by (apply existsb_exists; exists t; split; [eapply nth_error_In; eauto|exact H]).
+  destruct (H2 HW) as [_ H3]. congruence.
+Qed.
+
+(* closure is reported only when the queue is closed AND empty, i.e. after every item ever accepted has
+   been handed out; every result is well formed (Push never refuses, Pull returns (v,true) or (zero,false)) *)
+Theorem ll_close i t : nth_error (thr s) i = Some t -> In (RPull None false) (out t) ->
+  closed s = true /\ q s = [] /\ delivered s = pushed s.
+Proof.
+  intros Hn Hin. pose proof (reach_inv _ _ _ R) as I.
+  assert (Hr : sumf rep (thr s) > 0).
+  { pose proof (sumf_ge rep _ _ _ Hn). assert (rep t > 0); [|lia]. unfold rep.
+    pose proof (cnt_in is_closure _ _ Hin). cbn in H0. lia. }
+  destruct (I_rep s I Hr) as [H1 H2]. apply b2n_1 in H1.
+  assert (Hq : q s = []) by (destruct (q s); [reflexivity|discriminate]).
+  repeat split; auto. pose proof ll_fifo as F. rewrite Hq, app_nil_r in F. exact F.
+Qed.
+
+Theorem ll_results i t r : nth_error (thr s) i = Some t -> In r (out t) ->
+  r = RPush true \/ (exists v, r = RPull (Some v) true) \/ r = RPull None false \/ r = RClose.
+Proof.
+  intros Hn Hin. pose proof (I_res s (reach_inv _ _ _ R)) as H.
+  pose proof (sumf_ge bad _ _ _ Hn) as Hb. assert (Hz : bad t = 0) by lia.
+  pose proof (cnt_zero bad_res r _ Hz Hin) as Hr.
+  destruct r as [[]|[v|] []|]; cbn in Hr; try discriminate; eauto.
+Qed.
+
+(* exactly once: for every value, the number of times it was handed to a caller (returned by a finished Pull,
+   or taken by a Pull that is about to return it) is the number of times it was removed from the queue - and
+   by ll_fifo the removed values are a prefix of the inserted ones *)
+Theorem ll_exactly_once a : sumf (ga a) (thr s) = cN a (delivered s).
+Proof. apply (I_once s (reach_inv _ _ _ R)). Qed.
+End LL.
